@@ -290,6 +290,12 @@ async fn drive(net: NetRef, run: RunDesc, port: u16) -> Value {
                 }
             }
             Action::Hold | Action::Release => {}
+            Action::Tick(ms) => {
+                tokio::time::advance(Duration::from_millis(*ms)).await;
+                net.lock().unwrap().ev(format!("tick {}ms", ms));
+                bump("ticks", 1, &mut stats);
+                bump("simulated_ms", *ms, &mut stats);
+            }
             Action::Probe => {
                 let id = 1000 + probes.len();
                 let reqs = vec![
